@@ -39,8 +39,10 @@ def canon(line):
         c = int(c)
         if c >= 128 or c == 66:
             p = "*"
-        elif c == 69 and p == "-":
-            p = "WK"
+        elif c == 69:
+            # built-in /.well-known/core answer (no application handler ran): its options
+            # (Content-Format, ETag, Block2) and listing are C20's / C09's subject
+            o, p = "*", "WK"
         return "TX[t=%s c=%d m=%s k=%s o=%s p=%s%s]" % (t, c, mid, k, o, p, wd or "")
     return TX_RE.sub(fix, line)
 
@@ -226,6 +228,26 @@ def main(run):
     model = vlib.build_model()
     drv = vlib.build_driver("h_dispatch", ["h_dispatch.c"], wraps=WRAPS)
     runner = Runner(model, drv)
+    if getattr(run, "replay", None):
+        # re-run the case lines of a replay file and report them again
+        rl = []
+        for ln in open(run.replay):
+            ln = ln.strip()
+            for pre in ("shrunk case: ", "original case: ", "case: "):
+                if ln.startswith(pre):
+                    rl.append(ln[len(pre):])
+        rr, _ = runner.run(rl)
+        for ln, (mo, co, al) in zip(rl, rr):
+            v = verdict(mo, co, al)
+            vlib.log("replay %s: verdict=%s impl=%s allowed=%s" % (ln[:120], v, co[:200], " || ".join(al)[:300]))
+            run.count(ln, True)
+            if v == "R":
+                run.violation("server reaction is outside the relation of the property statement: impl=%s" % co[:200],
+                              "case: %s\nimpl: %s\nallowed: %s\n" % (ln, co, " || ".join(al)), tag="replay")
+            elif v == "F":
+                run.violation("server output differs from dp_serve: model=%s impl=%s" % (mo[:150], co[:150]),
+                              "case: %s\nmodel: %s\nimpl: %s\n" % (ln, mo, co), tag="replayf", no_input=True)
+        return
     r = tie.rng_for(run, "c10")
     corpus = list(vlib.read_corpus("C10"))
     nt, nq = (60, 400) if run.tier == "quick" else (1500, 600)
@@ -289,3 +311,26 @@ def main(run):
     run.cov["outside_relation"] = nR
     run.cov["differs_from_model"] = nF
     run.cov["corpus_cases"] = len(corpus)
+    if run.tier == "thorough":
+        # the same sweeps + a slice of the random cases under ASan+UBSan (library instrumented):
+        # the outputs must be the same and the driver must not trap
+        adrv = vlib.build_driver("h_dispatch", ["h_dispatch.c"], variant="asan", wraps=WRAPS)
+        sub = [i for i, s in enumerate(sts) if s is None or s["kind"] != "random"][:40000]
+        sub += [i for i, s in enumerate(sts) if s is not None and s["kind"] == "random"][:60000]
+        sl = [lines[i] for i in sub]
+        oa, acr = vlib.run_lines_robust(adrv, sl, timeout=1800,
+                                        env={"ASAN_OPTIONS": "detect_leaks=0:abort_on_error=1"})
+        run.cov["asan_cases"] = len(sl)
+        run.cov["asan_crashes"] = len(acr)
+        for idx, rc, err in acr[:2]:
+            run.violation("sanitizer trap in the server on a request datagram (rc=%d)" % rc,
+                          "case: %s\nstderr: %s\n" % (sl[idx], err), tag="asan%d" % idx)
+        nd = 0
+        for k, i in enumerate(sub):
+            if canon(oa[k]) != res[i][1] and not oa[k].startswith("CRASH"):
+                nd += 1
+                if nd <= 2:
+                    run.violation("sanitizer build answers differently: base=%s asan=%s" % (res[i][1][:120], oa[k][:120]),
+                                  "case: %s\nbase: %s\nasan: %s\n" % (lines[i], res[i][1], oa[k]),
+                                  tag="asandiff%d" % nd, no_input=True)
+        run.cov["asan_differences"] = nd
